@@ -363,7 +363,7 @@ def plan_c05(run, tmp):
         ("HStream_vary", "ok", "with varied class definitions (permuted, dropped, unknown fields carrying containers): the decoder reads and drops unknown fields and stays aligned: NoReject, AllRead"),
         ("HStream_neg3", "AllRead|NoReject|RefAgreement", "negative: a decoder that forgets the containers opened inside a skipped field falls behind the encoder's ordinals")])
     alt_stage(run, tmp, hx, known, "c05small", "c05s", "vary",
-              hcodec_cfg(defmode="vary", predefs=allk if th else "{0, 16, 40}", maxdev=2 if th else 1, wide="FALSE"),
+              hcodec_cfg(defmode="vary", predefs=allk if th else "{0, 17}", maxdev=2 if th else 1, wide="FALSE"),
               mc_note="every permutation / subset / one unknown field (9 kinds of unknown value) of the class definitions of the small objects x definition index k x short/long instance form")
     alt_stage(run, tmp, hx, known, "c05five", "c05", "vary",
               hcodec_cfg(defmode="vary", predefs=allk, maxdev=100000, wide="TRUE", maxchunks=2), simulate=60000 if th else 600,
